@@ -1006,7 +1006,12 @@ def concurrency(ctx, sats, judge, spy, mode, budget, scale=1):
         for plan in double:
             go(sat, [qa, qb], plan, "orbit|orbit two pre-emptions")
         # --- get_orbit_number against every other kind of query, both roles
-        for q in [q for q in pool if not is_orbit(q)]:
+        others, seen_m = [], set()
+        for q in pool:                                          # one query per kind (thorough: all of the pool)
+            if not is_orbit(q) and (thorough or q["m"] not in seen_m):
+                seen_m.add(q["m"])
+                others.append(q)
+        for q in others:
             kk = own if thorough and lead else (own[::2] if lead or thorough else sample(rng, own, 5 * scale))
             if mode == "full" and thorough and lead:
                 kk = sorted(set(kk) | set(firsts[::3]))
